@@ -3,6 +3,8 @@
 package c20
 
 import (
+	"crypto/sha1"
+	"encoding/hex"
 	"encoding/json"
 	"strings"
 
@@ -256,7 +258,7 @@ func run(cx *lib.Ctx) {
 		res.Case("trav:"+tc.Text, true)
 	}
 
-	na := cx.Scale(7000, 300000)
+	na := cx.Scale(14000, 600000)
 	for i := 0; i < na; i++ {
 		r := cx.R.Fork()
 		tc := genTravCase(r)
@@ -267,19 +269,19 @@ func run(cx *lib.Ctx) {
 			res.Count("trav:newline-between-steps")
 		}
 		k.checkTrav(tc)
-		res.Case("trav:"+tc.Text+"|"+tc.input(), len(tc.Steps) > 1)
+		res.Case(canon("trav:"+tc.Text+"|"+tc.input()), len(tc.Steps) > 1)
 		if i < 2 {
 			res.Sample(json.RawMessage(tc.input()))
 		}
 	}
-	nb := cx.Scale(20000, 1000000)
+	nb := cx.Scale(40000, 2000000)
 	for i := 0; i < nb; i++ {
 		r := cx.R.Fork()
 		t := genSoup(r)
 		k.checkSoup(t)
 		res.Case("text:"+t, true)
 	}
-	nc := cx.Scale(5000, 250000)
+	nc := cx.Scale(10000, 500000)
 	for i := 0; i < nc; i++ {
 		r := cx.R.Fork()
 		g := &eg{r: r}
@@ -309,12 +311,12 @@ func run(cx *lib.Ctx) {
 		default:
 			k.checkCall(&pc)
 		}
-		res.Case(pc.Kind+":"+pc.Syntax+":"+pc.Text, len(pc.Text) > 2)
+		res.Case(canon(pc.Kind+":"+pc.Syntax+":"+pc.Text), len(pc.Text) > 2)
 		if i < 2 {
 			res.Sample(json.RawMessage(pc.input()))
 		}
 	}
-	nd := cx.Scale(6000, 300000)
+	nd := cx.Scale(12000, 600000)
 	maxDepth := 4
 	if cx.Thorough() {
 		maxDepth = 6
@@ -331,8 +333,17 @@ func run(cx *lib.Ctx) {
 			res.Count("type:first-attr-for")
 		}
 		k.checkType(ty)
-		res.Case("type:"+lib.DumpType(ty), !ty.IsPrimitiveType() && ty != cty.DynamicPseudoType)
+		res.Case(canon("type:"+lib.DumpType(ty)), !ty.IsPrimitiveType() && ty != cty.DynamicPseudoType)
 	}
+}
+
+// canon shortens long canonical texts to a digest (the distinct-case set keeps every key in memory).
+func canon(s string) string {
+	if len(s) <= 48 {
+		return s
+	}
+	h := sha1.Sum([]byte(s))
+	return hex.EncodeToString(h[:])
 }
 
 func handTypes() []cty.Type {
